@@ -16,17 +16,17 @@ LEVEL = 'model_checking'
 TECHNIQUE = ('explicit-state breadth-first model checking of the implementation: states are canonical disk images, transitions execute the real '
              'trash-put / trash-restore / trash-rm / trash-empty on the state rebuilt from its snapshot; a bag reference model is stepped in lock-step and '
              'trash-list is compared with it after every transition')
-LEVEL_TEXT = ('every state reachable by at most d commands (quick d=5, thorough d=6) from the empty trash, and by at most 3 (thorough 5) commands from a second initial state in which one volume holds entries in both .Trash/uid and .Trash-uid, and by at most 2 (thorough 4) from a third one whose .Trash-uid is a symbolic link, over a 17-command alphabet on two volumes is generated, deduplicated by a '
+LEVEL_TEXT = ('every state reachable by at most d commands (quick d=5, thorough d=6) from the empty trash, and by at most 3 (thorough 5) commands from a second initial state in which one volume holds entries in both .Trash/uid and .Trash-uid, and by at most 2 (thorough 4) from a third one whose .Trash-uid is a symbolic link and a fourth one that holds a symlink to a live directory and a name with a percent escape, over a 17-command alphabet on two volumes is generated, deduplicated by a '
               'canonical hash of the whole disk image, and in every state the output of the real trash-list must equal the bag (multiset of date+path lines) and the pairs on disk must equal the bag')
 LEVEL_NOTE = ('exhaustive to the stated depth only; canonicalisation drops directory/.trashinfo mtimes and inode numbers, which no trash-cli code path reads (grep st_mtime|st_ino is empty); '
               'trusted: R3/R4/R5 reference models')
-RULE = ('alphabet: put of 6 entries (re-created with path-determined content when absent; four of them share the base name "a" - one of these is a dangling symlink -, one is a directory, two live on /mnt/v1, one of them with a trailing blank in its name), restore with '
+RULE = ('alphabet: put of 6 entries (re-created with path-determined content when absent; four of them share the base name "a" - one of these is a dangling symlink -, one is a directory, two live on /mnt/v1, one of them with a percent escape and a trailing blank in its name), restore with '
         '(scope, reply) in {(/,0),(/home/u/w,0),(/,0-1),(/mnt/v1,0)}, rm {a,*,/home/u/w/*,b}, empty, empty 1, tick (+1 day, at most 2); BFS to the depth bound; distinct = transition outcome labels')
 DEPTH = {'quick': 5, 'thorough': 6}
 STATE_CAP = {'quick': 60000, 'thorough': 400000}
 BASE = '2024-03-01T12:00:00'
 PUTS = {'put:w/a': ('/home/u/w/a', 'file'), 'put:w/d': ('/home/u/w/d', 'tree'), 'put:w/sub/a': ('/home/u/w/sub/a', 'file'),
-        'put:v1/p/a': ('/mnt/v1/p/a', 'file'), 'put:v1/p/b': ('/mnt/v1/p/b ', 'file'), 'put:w/ln/a': ('/home/u/w/ln/a', 'ldang')}
+        'put:v1/p/a': ('/mnt/v1/p/a', 'file'), 'put:v1/p/b': ('/mnt/v1/p/b%41 ', 'file'), 'put:w/ln/a': ('/home/u/w/ln/a', 'ldang')}
 RESTORES = {'restore:/,0': ('/', '0'), 'restore:w,0': ('/home/u/w', '0'), 'restore:/,0-1': ('/', '0-1'), 'restore:v1,0': ('/mnt/v1', '0')}
 RMS = {'rm:a': 'a', 'rm:*': '*', 'rm:/home/u/w/*': '/home/u/w/*', 'rm:b': 'b'}
 ACTIONS = list(PUTS) + list(RESTORES) + list(RMS) + ['empty', 'empty:1', 'tick']
@@ -72,6 +72,17 @@ def initial(tier):
         W3 = scen.base_world(mounts=MOUNTS)
         W3.dir('/home/u/w').dir('/mnt/v1/p').dir('/mnt/v1/.Trash-0real', mode=0o700).link('/mnt/v1/.Trash-0', '.Trash-0real')
         out.append({'nodes': W3.spec()['nodes'], 'model': {'bag': [], 'day': 0}, 'max_depth': 2 if tier != 'thorough' else 4})
+        # fourth initial state: the home trash already holds a symbolic link to a live directory and a file whose name contains a percent escape
+        W4 = scen.base_world(mounts=MOUNTS)
+        W4.dir('/home/u/w').dir('/mnt/v1/p').dir('/home/u/live').file('/home/u/live/inner', 'alive\n')
+        scen.add_trashed(W4, scen.HOME_TRASH, 'lnk', '/home/u/w/lnk', '2024-02-21T12:00:00', payload=None)
+        W4.link(scen.HOME_TRASH + '/files/lnk', '/home/u/live')
+        scen.add_trashed(W4, scen.HOME_TRASH, 'My%20File', '/home/u/w/My%2520File', '2024-02-22T12:00:00', payload='file', tag='percent')
+        nodes4 = W4.spec()['nodes']
+        s4 = _snap_of_nodes(nodes4)
+        bag4 = [['/home/u/w/lnk', '2024-02-21T12:00:00', digest_of(s4, scen.HOME_TRASH + '/files/lnk'), scen.HOME_TRASH],
+                ['/home/u/w/My%20File', '2024-02-22T12:00:00', digest_of(s4, scen.HOME_TRASH + '/files/My%20File'), scen.HOME_TRASH]]
+        out.append({'nodes': nodes4, 'model': {'bag': sorted(bag4), 'day': 0}, 'max_depth': 2 if tier != 'thorough' else 4})
     return out
 
 
